@@ -253,6 +253,40 @@ func (x *Exec) oblige(st *State, kind, site, descr string, props []string, goal 
 	if st.dead || goal == tErr {
 		return
 	}
+	if goal.Op == "=>" && len(goal.Args) == 2 && isQuantified(goal.Args[0]) {
+		// P ==> Q with a quantified P (an invariant carried from the old state to the new one): assume P, prove Q.
+		// What is literally known then closes without a solver (modus ponens in assume, hypothesis look-up below).
+		st2 := st.clone()
+		st2.assume(goal.Args[0])
+		// implications already among the hypotheses whose (quantified) antecedent has just become literally known
+		for round := 0; round < 3; round++ {
+			fired := false
+			for _, h := range append([]*Term(nil), st2.hyps...) {
+				if h.Op != "=>" || len(h.Args) != 2 || !isQuantified(h.Args[0]) {
+					continue
+				}
+				all := true
+				for _, c := range conjuncts(h.Args[0]) {
+					if !st2.hypSet[c.String()] {
+						all = false
+						break
+					}
+				}
+				if all && !st2.hypSet[h.Args[1].String()] {
+					n := len(st2.hyps)
+					st2.assume(h.Args[1])
+					if len(st2.hyps) > n {
+						fired = true
+					}
+				}
+			}
+			if !fired {
+				break
+			}
+		}
+		x.oblige(st2, kind, site, descr, props, goal.Args[1])
+		return
+	}
 	base := fmt.Sprintf("%s/%s/%s", x.key, kind, site)
 	x.names[base]++
 	parts := splitGoal(goal)
